@@ -119,6 +119,15 @@ fn gen_matrix(rng: &mut Rng, class: u64) -> [f64; 6] {
             [a, bb, rng.range(-9, 9) as f64, k * a, k * bb, rng.range(-9, 9) as f64]
         }
         4 => unimodularish(rng),
+        6 => {
+            // tiny / huge but exactly representable determinants: (signed) power-of-two scalings far from 1,
+            // optionally with an integer shear and a translation. Non-singular however small det is.
+            let ea = rng.range(-45, 20) as i32;
+            let eb = rng.range(-45, 20) as i32;
+            let sa = if rng.chance(1, 4) { -1.0 } else { 1.0 };
+            let sh = if rng.chance(1, 3) { rng.range(-2, 2) as f64 } else { 0.0 };
+            [sa * 2f64.powi(ea), sh * 2f64.powi(ea), rng.range(-9, 9) as f64, 0.0, 2f64.powi(eb), rng.range(-9, 9) as f64]
+        }
         _ => [wild_f64(rng), wild_f64(rng), wild_f64(rng), wild_f64(rng), wild_f64(rng), wild_f64(rng)],
     }
 }
@@ -137,7 +146,7 @@ fn gen_alg(rng: &mut Rng) -> String {
     let n = if wild { 1 + rng.below(2) } else { 1 + rng.below(8) };
     let mut s = format!("C13.alg {}", n);
     for i in 0..n {
-        let class = if wild { 5 } else if i == 0 { *rng.pick(&[0u64, 0, 1, 2, 3, 4, 4]) } else { rng.below(5) };
+        let class = if wild { 5 } else if i == 0 { *rng.pick(&[0u64, 0, 1, 2, 3, 4, 4, 6]) } else { *rng.pick(&[0u64, 1, 2, 3, 4, 6]) };
         s.push(' ');
         s.push_str(&mat6v(&gen_matrix(rng, class)));
     }
